@@ -43,3 +43,21 @@ func VerifInboundHas(c *Connection, id uint32) bool {
 	_, ok := c.inbound.exchanges[id]
 	return ok
 }
+
+// VerifC10LockRelayItems takes the write lock of one relayItems table of the connection's
+// relayer (outbound table = items of calls that ORIGINATE on this connection) and returns the
+// function that releases it.  Engine relaywire (C10, strengthening V10) uses it to hold the
+// relay's timeout goroutine and a connection reader at the entrance of their critical sections
+// (relayItems.Entomb / relayItems.Get), in a chosen order: it stands for the scheduler delaying
+// both; nothing of the relay's state is read or written.
+func VerifC10LockRelayItems(c *Connection, inboundTable bool) (unlock func()) {
+	if c == nil || c.relay == nil {
+		return func() {}
+	}
+	items := c.relay.outbound
+	if inboundTable {
+		items = c.relay.inbound
+	}
+	items.Lock()
+	return items.Unlock
+}
